@@ -23,6 +23,10 @@ import (
 //	(xインデックス, yインデックス, vインデックス)
 func GetVoxelIDfromSpatialID(spatialID string) []int64 {
 	ids := strings.Split(spatialID, consts.SpatialIDDelimiter)
+	if len(ids) < 5 {
+		// 拡張空間IDのフォーマットではない場合は空のスライスを返却
+		return []int64{}
+	}
 	lonIndex, _ := strconv.ParseInt(ids[1], 10, 64)
 	latIndex, _ := strconv.ParseInt(ids[2], 10, 64)
 	altIndex, _ := strconv.ParseInt(ids[4], 10, 64)
